@@ -80,6 +80,11 @@ class HarnessError(Exception):
     """Raised by harness code when the harness itself is inconsistent (exit 2, never a violation)."""
 
 
+class Deadlock(BaseException):
+    """A lock that is already held is acquired again: with every handler of the node running to completion on
+    one thread nobody can ever release it - the real node's thread would block here for good."""
+
+
 class Result:
     """What one interpreted run returns to the runner."""
 
